@@ -239,6 +239,11 @@ func buildWorld(nodes []Node) error {
 				return fmt.Errorf("setcap %s: %w", n.Path, err)
 			}
 		}
+		if n.Opq {
+			if err := unix.Lsetxattr(n.Path, "trusted.overlay.opaque", []byte("y"), 0); err != nil {
+				return fmt.Errorf("set opaque %s: %w", n.Path, err)
+			}
+		}
 	}
 	for i := len(ns) - 1; i >= 0; i-- {
 		n := ns[i]
@@ -331,6 +336,9 @@ func scanWorld(top string) ([]Node, error) {
 		buf := make([]byte, 256)
 		if sz, err := unix.Lgetxattr(p, "security.capability", buf); err == nil {
 			n.Cap = string(buf[:sz])
+		}
+		if sz, err := unix.Lgetxattr(p, "trusted.overlay.opaque", buf); err == nil && string(buf[:sz]) == "y" {
+			n.Opq = true
 		}
 		n.Group = int(st.Ino) // raw inode for now; renumbered below
 		if p != top {
